@@ -230,6 +230,34 @@ func judge(p prediction, got yang.YangRange, fd int, errText string) *fail {
 	if !fdOK {
 		return &fail{"fraction-digits-of-bounds", fmt.Sprint(fd), fmt.Sprintf("%+v", got)}
 	}
+	// the same set through the other methods of the range type: it validates, equals itself, prints
+	// to a text that reads back as the same set, lies within its hull, and holds its hull only when
+	// it is one interval
+	if err := got.Validate(); err != nil {
+		return &fail{"validate-rejects-the-resolved-set", "nil", err.Error()}
+	}
+	if !got.Equal(got) {
+		return &fail{"set-not-equal-to-itself", "Equal", got.String()}
+	}
+	if len(got) > 0 {
+		var back yang.YangRange
+		var err error
+		if fd == 0 {
+			back, err = yang.ParseRangesInt(got.String())
+		} else {
+			back, err = yang.ParseRangesDecimal(got.String(), uint8(fd))
+		}
+		if err != nil || !back.Equal(got) {
+			return &fail{"printed-set-reads-back-differently", got.String(), fmt.Sprint(back, err)}
+		}
+		hull := yang.YangRange{{Min: got[0].Min, Max: got[len(got)-1].Max}}
+		if !hull.Contains(got) {
+			return &fail{"hull-does-not-contain-the-set", "Contains", hull.String() + " vs " + got.String()}
+		}
+		if got.Contains(hull) != (len(got) == 1) {
+			return &fail{"set-contains-its-hull", fmt.Sprint(len(got) == 1), hull.String() + " vs " + got.String()}
+		}
+	}
 	return nil
 }
 
